@@ -89,6 +89,36 @@ def _field_backend(i, FK):
     return _BACKENDS[key]
 
 
+_RX_BACKENDS = {}
+
+
+def _regex_paths(src, delim):
+    """[cased, wildcard match, keyword]: the text between the marks of the regular-expression literal in the query each
+    path produces (an empty list for a path the value does not take)."""
+    from sigma.rule import SigmaRule
+
+    if delim not in _RX_BACKENDS:
+        from sigma.backends.test import TextQueryTestBackend
+        from sigma.processing.pipeline import ProcessingPipeline
+
+        M = "\u00a6"
+        _RX_BACKENDS[delim] = type("RegexPathsBackend", (TextQueryTestBackend,), dict(
+            add_escaped_re=delim, re_escape=(), re_escape_escape_char=False, backend_processing_pipeline=ProcessingPipeline(),
+            case_sensitive_match_expression="{field} CS " + M + "{regex}" + M,
+            case_sensitive_startswith_expression=None, case_sensitive_endswith_expression=None, case_sensitive_contains_expression=None,
+            startswith_expression=None, endswith_expression=None, contains_expression=None,
+            wildcard_match_expression="{field} WM " + M + "{regex}" + M,
+            unbound_value_str_expression="KW " + M + "{regex}" + M,
+        ))
+    cls = _RX_BACKENDS[delim]
+    out = []
+    for det in ({"f|cased": src}, {"f": src}, [src]):
+        q = cls().convert_rule(SigmaRule.from_dict({"title": "t", "logsource": {"category": "c"}, "detection": {"sel": det, "condition": "sel"}}))
+        parts = q[0].split("\u00a6")
+        out.append(cps(parts[1]) if len(parts) == 3 else [0 - 1])
+    return out
+
+
 def drive_case(case):
     from sigma.types import SigmaString, SpecialChars
     from sigma.conversion.state import ConversionState
@@ -147,6 +177,10 @@ def drive_case(case):
     # ... and the way a backend does it for a target that wants the delimiter AND the escape character escaped
     # (re_escape = [delimiter], re_escape_escape_char): the text that goes between the delimiters
     o["rdesc"] = _res(lambda: {"esc": cps(s.to_regex().escape([delim], "\\", True, False)), "plain": cps(str(s.to_regex().regexp))})
+    # ... and the same through a BACKEND whose templates put the regular-expression form into a literal delimited by that
+    # character (add_escaped_re), on every path that has the form as template variable: the case-sensitive one, the
+    # wildcard match, the unbound keyword
+    o["rdpaths"] = _res(lambda: _regex_paths(src, delim))
     # the regex transformation of processing pipelines (three methods)
     from sigma.processing.transformations import RegexTransformation
     from sigma.types import SigmaRegularExpression, SigmaRegularExpressionFlag
